@@ -596,6 +596,36 @@ class X86Model(object):
             raise AnalysisError('_dis: operand-size statements for %s %s are outside the evaluable subset: %s' % (name, list(opc), e))
         return (None if digit else mafs[afs.size]), modr[afs.size]
 
+    def im_fmt_table(self):
+        """get_im_fmt evaluated from its source on se x w8 x mode x {imm, ims}: {(se, w8, mode, kind): (size, fmt, type) | 'raises:<Exc>'}."""
+        if getattr(self, '_im_fmt', None) is None:
+            import struct as _struct
+            from .consteval import Native, PyRaise, class_obj
+            fn = self.arch.method('x86allmncs', 'get_im_fmt')
+            E, afs = self.env, self.afs
+            st = Obj('struct')
+            st.calcsize = Native(_struct.calcsize)
+            out = {}
+            for se_ in (False, True):
+                for w8_ in (False, True):
+                    for mode in (afs.u16, afs.u32):
+                        for kind in ('imm', 'ims'):
+                            modifs = dict((E[k], None) for k in ('w8', 'se', 'sw', 'sd', 'wd', 'mmx') if k in E)
+                            modifs[E['se']], modifs[E['w8']] = se_, w8_
+                            scope = dict((k, v) for k, v in E.items() if isinstance(v, (str, int, bool, list, tuple, dict)) or v is None)
+                            scope.update({'x86_afs': afs, 'struct': st})
+                            for fname_, fnode_ in self.arch.funcs.items():
+                                scope.setdefault(fname_, fnode_)
+                            try:
+                                r = Evaluator(scope).call_user(fn, [class_obj(self.arch, 'x86allmncs'), modifs, mode, E[kind]])
+                                out[(se_, w8_, mode, kind)] = tuple(r)
+                            except PyRaise as e:
+                                out[(se_, w8_, mode, kind)] = 'raises:%s' % e.exc_name
+                            except NotConst as e:
+                                raise AnalysisError('x86allmncs.get_im_fmt is outside the evaluable subset: %s' % e)
+            self._im_fmt = out
+        return self._im_fmt
+
     def dis_rm_size(self, c, is_mem, opmode=None):
         """Size _dis gives the ModRM r/m operand of a non-MMX row variant (cell `c`); 'rejected' when the branch returns None for that form."""
         r = self.dis_operand_sizes(c.name, c.modifs, c.row.rm, c.opc, c.row.afs, is_mem, opmode)
